@@ -96,4 +96,3 @@ package pubsub
 //@ func (*validation).sendMsgBlocking
 //@   property C14
 //@   cancellable
-
